@@ -14,6 +14,10 @@ func (e *FilterExec) Explain() string {
 }
 
 func (e *FilterExec) Filter(kvp KVPair, ctx *ExecuteCtx) (bool, error) {
+	if ctx != nil {
+		// Field results cached for the previous scanned pair are stale
+		ctx.ClearFieldCache()
+	}
 	ret, err := e.filterBatch([]KVPair{kvp}, ctx)
 	if err != nil {
 		return false, err
